@@ -204,10 +204,19 @@ def _context_problem(ctx, var_snapshot, ref, case):
             continue
         if k not in cvar or freeze(cvar[k]) != freeze(v):
             return ("variable-attribute-" + ("missing" if k not in cvar else "differs"), k)
+    pristine = M.build_flow(case["flow"], case["var"], case["mode"])
+    # the subcontext corresponds to arg_var: unless a value routed into a cell brought a variable of its
+    # own (which the variable composes with), it is exactly the variable's own context
+    routed = [p for idx in ref for p in ref[idx][2]]
+    if not any("variable" in (M.split_value(pristine[p])[1] or {}) for p in routed):
+        if freeze(cvar) != freeze(var_snapshot):
+            return ("variable-foreign-attributes",
+                    sorted(k for k in set(cvar) | set(var_snapshot)
+                           if k not in cvar or k not in var_snapshot
+                           or freeze(cvar[k]) != freeze(var_snapshot[k])))
     rest = dict((k, v) for k, v in ctx.items() if k != "variable")
     if not rest:
         return None
-    pristine = M.build_flow(case["flow"], case["var"], case["mode"])
     candidates = []
     inter = None
     for idx in sorted(ref):
